@@ -26,6 +26,24 @@ def scaled_faces(cls, faces, L):
     return [f * L if AXKIND[cls][k] in ('len', 'rad') else f.copy() for k, f in enumerate(faces)]
 
 
+def hand_assemble(phi, terms):
+    """boundary rows of the variable's current BCs + the sum of the very term objects handed to solvePDE"""
+    if phi.BCs.modified or phi.value.modified:
+        phi.apply_BCs()
+    Mbc, bbc = pf.boundaryConditionsTerm(phi.BCs)
+    M = sp.csr_array(Mbc).copy()
+    b = np.array(bbc, dtype=float, copy=True)
+    for t in terms:
+        if isinstance(t, tuple):
+            M = M + t[0]
+            b = b + t[1]
+        elif getattr(t, 'ndim', None) == 2:
+            M = M + t
+        else:
+            b = b + np.asarray(t)
+    return sp.csr_array(M), b
+
+
 def run_units(case, rng, cls):
     nd = NDIM[cls]
     faces, meta = gen.gen_grid(rng, cls, nmin=1, nmax=case.get('nmax', 5 if nd < 3 else 3))
@@ -38,6 +56,11 @@ def run_units(case, rng, cls):
     if case.get('wide'):
         # nanometre ... gigametre: absolute length tolerances hidden in the library (1e-8 is numpy's default atol) must not matter
         L = float(2.0 ** int(rng.integers(-33, 34))) if pow2 else float(10 ** rng.uniform(-10, 10))
+        # ... and nanoseconds ... gigaseconds, nano ... giga field units (absolute thresholds on coefficients, time steps, values)
+        if rng.random() < 0.6:
+            T = float(2.0 ** int(rng.integers(-36, 37))) if pow2 else float(10 ** rng.uniform(-11, 11))
+        if rng.random() < 0.6:
+            K = float(2.0 ** int(rng.integers(-40, 34))) if pow2 else float(10 ** rng.uniform(-12, 10))
     facesB = scaled_faces(cls, faces, L)
     gB = Geom(cls, facesB)
     mA, mB = gen.build_mesh(pf, cls, faces), gen.build_mesh(pf, cls, facesB)
@@ -72,12 +95,17 @@ def run_units(case, rng, cls):
     phiA, DA, uA = build(mA, g, spec, 1.0, 1.0, 1.0)
     phiB, DB, uB = build(mB, gB, specB, L, T, K)
     FL = pf.fluxLimiter(limname)
-    nsteps = int(rng.integers(1, 5))
+    default_solver = bool(case.get('default_solver'))
+    nsteps = int(rng.integers(1, 5)) if not default_solver else int(rng.integers(2, 6))
     rows = interior_index(g.dims)
     with np.errstate(all='ignore'):
+        dt_prev = None
         for step in range(nsteps):
             dt = float(10 ** rng.uniform(-3, 2))
             alpha = float(10 ** rng.uniform(-1, 1))
+            if default_solver and dt_prev is not None and rng.random() < 0.7:
+                dt, alpha = dt_prev[0] * float(rng.choice([0.75, 1.25, 0.5, 2.0])), dt_prev[1]      # adaptive stepping: modest changes
+            dt_prev = (dt, alpha)
             if step > 0:
                 # every step starts from exactly corresponding states: otherwise the (cond-amplified) rounding difference of the
                 # previous solves is fed through the nonlinear limiter and is mistaken for a unit dependence
@@ -95,6 +123,39 @@ def run_units(case, rng, cls):
                     t.append(pf.linearSourceTerm(pf.CellVariable(m, beta / Ts)))
                     t.append(pf.constantSourceTerm(pf.CellVariable(m, gamma * Ks / Ts)))
                 return t
+            if default_solver:
+                # the library's own solver path (no external solver): the systems are assembled by hand from the very term objects,
+                # and the variables left by solvePDE must satisfy their interior equations - in B with K * (values of A) as well
+                tA, tB = terms(phiA, mA, DA, uA, 1.0, 1.0), terms(phiB, mB, DB, uB, T, K)
+                (MA, bA), (MB, bB) = hand_assemble(phiA, tA), hand_assemble(phiB, tB)
+                pf.solvePDE(phiA, tA)
+                pf.solvePDE(phiB, tB)
+                xA, xB = np.asarray(phiA._value, dtype=float).ravel(), np.asarray(phiB._value, dtype=float).ravel()
+                if not (np.all(np.isfinite(xA)) and np.all(np.isfinite(xB))):
+                    return None, cov, maxerr, meta, faces, spec, (L, T, K), limname, 'singular system'
+                worst_ = 0.0
+                for lab_, M_, b_, x_ in (('A', MA, bA, xA), ('B', MB, bB, xB), ('B with K*A', MB, bB, K * xA)):
+                    s_ = absmv(M_, x_) + np.abs(b_)
+                    gm_ = np.ones(len(s_), dtype=bool)
+                    gm_[rows] = False
+                    sb_ = s_[gm_]
+                    sb_ = sb_[sb_ > 0]
+                    amp_ = float(np.max(s_)) / float(np.min(sb_)) if sb_.size else 1.0
+                    allowed_ = TOL + 64.0 * len(s_) * np.finfo(float).eps * amp_
+                    if allowed_ > 1e-4:
+                        cov['default_path_steps_not_decidable'] = cov.get('default_path_steps_not_decidable', 0) + 1
+                        continue
+                    e_ = residual_err(M_, x_, b_, rows, solver_output=True)
+                    worst_ = max(worst_, e_)
+                    if not (e_ <= allowed_):
+                        bad.append(('units-default-path', 'step %d (%s, default solver, L=%.3g T=%.3g K=%.3g, dt=%.3g): the values left by solvePDE (%s) do not satisfy the interior equations of the system its terms define (normalised %.3g, allowed %.3g)' % (
+                            step + 1, tset, L, T, K, dt, lab_, e_, allowed_)))
+                        break
+                maxerr['units-default-path'] = max(maxerr.get('units-default-path', 0.0), worst_)
+                cov['unit_default_path_steps'] = cov.get('unit_default_path_steps', 0) + 1
+                if bad:
+                    break
+                continue
             sA, sB = SpySolver(), SpySolver()
             pf.solvePDE(phiA, terms(phiA, mA, DA, uA, 1.0, 1.0), externalsolver=sA)
             pf.solvePDE(phiB, terms(phiB, mB, DB, uB, T, K), externalsolver=sB)
@@ -273,6 +334,8 @@ def plan(tier, seed):
             for rep in range(per):
                 cases.append({'cls': cls, 'kind': 'units', 'tset': tset, 'small': rep % 4 == 3, 'wide': rep % 2 == 1, 'seed': [seed, 17, ci, i]})
                 i += 1
+                cases.append({'cls': cls, 'kind': 'units', 'tset': tset, 'wide': rep % 2 == 0, 'default_solver': True, 'seed': [seed, 17, ci, i]})
+                i += 1
         for rep in range(3 if tier == 'quick' else 60):
             cases.append({'cls': cls, 'kind': 'linearity', 'seed': [seed, 17, ci, i]})
             i += 1
@@ -295,7 +358,7 @@ def floors(agg, tier):
     for t in TSETS:
         if agg['cov'].get('tset:' + t, 0) < 20:
             out.append('tset:%s < 20' % t)
-    for k, need in (('unit_steps', 300), ('unit_direct', 100), ('small_amplitude', 20), ('pow2_scales', 30), ('wide_length_scale', 60), ('length_scale_below_1e-7', 8), ('tvd_homogeneity', 40), ('tvd_homogeneity_below_1e-15', 5)):
+    for k, need in (('unit_steps', 300), ('unit_direct', 100), ('small_amplitude', 20), ('pow2_scales', 30), ('wide_length_scale', 60), ('unit_default_path_steps', 150), ('length_scale_below_1e-7', 8), ('tvd_homogeneity', 40), ('tvd_homogeneity_below_1e-15', 5)):
         if agg['cov'].get(k, 0) < need:
             out.append('%s < %d' % (k, need))
     return out
